@@ -102,3 +102,5 @@ func EvLogon(rel int, abs int, reset string) *Event {
 	}
 	return e
 }
+
+func EvRestart() *Event { return &Event{K: "restart", Name: "restart"} }
